@@ -73,3 +73,72 @@ Theorem C07_recent_history_sound :
    N.of_nat (length rs) = N.min r n) \/ Bad.
 Proof. exact history_recent_sound. Qed.
 Print Assumptions C07_recent_history_sound.
+
+(* AllowMissingValues (the client opted in): an accepted proof still covers exactly the true
+   versions, newest first, each reported either as it is or as a tombstone (empty value) with the
+   TRUE epoch - with one exception, spelled out in [amrel]: a tombstoned version 1 may carry any
+   epoch (nothing binds it once the value check is skipped: the known finding K2).
+   Additional premises: the stale leaf of version v carries the stale value and the epoch of
+   version v+1 (honest tree), and the stale value is a digest. *)
+Theorem C07_complete_history_sound_allow_missing :
+  forall (cfg : config) (Bad : Prop), Binding cfg Bad ->
+  forall (vrf_check : bytes -> bytes -> bytes -> option bytes) (pk ck l : bytes) (t : tree),
+  tree_ok t -> wf_root t = true ->
+  forall nlabel_of : bool -> N -> nlabel,
+  (forall f v, llen (nlabel_of f v) = 256 /\ WF (nlabel_of f v) /\ LW (nlabel_of f v)) ->
+  (forall proof f v out, vrf_check pk proof (label_input_hash cfg l f v) = Some out -> NL out 256 = nlabel_of f v) ->
+  forall (n : N) (val_of : N -> bytes) (ep_of : N -> N),
+  (forall v, Len64 (val_of v)) -> (forall v, ep_of v < 2 ^ 64) ->
+  (forall y v, In y (leaves t) -> lf_label y = nlabel_of true v ->
+     1 <= v /\ v <= n /\ lf_value y = fresh_value cfg ck (nlabel_of true v) v (val_of v) /\ lf_epoch y = ep_of v) ->
+  (forall v, 1 <= v -> v < n -> In (nlabel_of false v) (map lf_label (leaves t))) ->
+  (forall v, Len64 (c_commitment_nonce cfg ck (nl_to_bytes (nlabel_of true v)) v (val_of v))) ->
+  (forall v, 1 <= v -> v <= n -> In (nlabel_of true v) (map lf_label (leaves t))) ->
+  (forall y v, In y (leaves t) -> lf_label y = nlabel_of false v ->
+     lf_value y = c_stale_value cfg /\ lf_epoch y = ep_of (v + 1)) ->
+  D32 (c_stale_value cfg) ->
+  forall (E : N) (p : history_proof) (rs : list verify_result), hp_ok2 p ->
+  1 <= n -> n <= E -> E < 2 ^ 64 ->
+  key_history_verify cfg vrf_check pk (root_hash cfg true t) E l p HComplete true = Some rs ->
+  Forall2 amrel rs (map (true_entry val_of ep_of) (map (fun i => n - N.of_nat i) (seq 0 (N.to_nat n)))) \/ Bad.
+Proof. exact history_complete_sound_am. Qed.
+Print Assumptions C07_complete_history_sound_allow_missing.
+
+Theorem C07_recent_history_sound_allow_missing :
+  forall (cfg : config) (Bad : Prop), Binding cfg Bad ->
+  forall (vrf_check : bytes -> bytes -> bytes -> option bytes) (pk ck l : bytes) (t : tree),
+  tree_ok t -> wf_root t = true ->
+  forall nlabel_of : bool -> N -> nlabel,
+  (forall f v, llen (nlabel_of f v) = 256 /\ WF (nlabel_of f v) /\ LW (nlabel_of f v)) ->
+  (forall proof f v out, vrf_check pk proof (label_input_hash cfg l f v) = Some out -> NL out 256 = nlabel_of f v) ->
+  forall (n : N) (val_of : N -> bytes) (ep_of : N -> N),
+  (forall v, Len64 (val_of v)) -> (forall v, ep_of v < 2 ^ 64) ->
+  (forall y v, In y (leaves t) -> lf_label y = nlabel_of true v ->
+     1 <= v /\ v <= n /\ lf_value y = fresh_value cfg ck (nlabel_of true v) v (val_of v) /\ lf_epoch y = ep_of v) ->
+  (forall v, 1 <= v -> v < n -> In (nlabel_of false v) (map lf_label (leaves t))) ->
+  (forall v, Len64 (c_commitment_nonce cfg ck (nl_to_bytes (nlabel_of true v)) v (val_of v))) ->
+  (forall v, 1 <= v -> v <= n -> In (nlabel_of true v) (map lf_label (leaves t))) ->
+  (forall y v, In y (leaves t) -> lf_label y = nlabel_of false v ->
+     lf_value y = c_stale_value cfg /\ lf_epoch y = ep_of (v + 1)) ->
+  D32 (c_stale_value cfg) ->
+  forall (E : N) (p : history_proof) (rs : list verify_result) (r : N), hp_ok2 p ->
+  1 <= n -> n <= E -> E < 2 ^ 64 ->
+  key_history_verify cfg vrf_check pk (root_hash cfg true t) E l p (HMostRecent r) true = Some rs ->
+  (Forall2 amrel rs (map (true_entry val_of ep_of) (map (fun i => n - N.of_nat i) (seq 0 (length rs)))) /\
+   N.of_nat (length rs) = N.min r n) \/ Bad.
+Proof. exact history_recent_sound_am. Qed.
+Print Assumptions C07_recent_history_sound_allow_missing.
+
+(* what [amrel] allows, spelled out *)
+Theorem C07_allow_missing_relation : forall r tr, amrel r tr <->
+  r_version r = r_version tr /\
+  ((r_value r = r_value tr /\ r_epoch r = r_epoch tr) \/
+   (r_value r = GenConsts.TOMBSTONE /\ (r_epoch r = r_epoch tr \/ r_version r = 1))).
+Proof. exact amrel_spelled. Qed.
+Print Assumptions C07_allow_missing_relation.
+
+(* the stale value of both real configurations is a digest *)
+Theorem C07_stale_value_is_digest : forall (H : bytes -> bytes), (forall x, length (H x) = 32%nat) ->
+  forall domain, D32 (c_stale_value (whatsapp H)) /\ D32 (c_stale_value (experimental H domain)).
+Proof. exact stale_value_digest. Qed.
+Print Assumptions C07_stale_value_is_digest.
